@@ -2,6 +2,8 @@ package main
 
 import (
 	"bufio"
+	"compress/flate"
+	"crypto/tls"
 	"encoding/binary"
 	"encoding/json"
 	"fmt"
@@ -11,6 +13,7 @@ import (
 	"sync"
 	"time"
 
+	"github.com/golang/snappy"
 	"github.com/nsqio/nsq/verifharness/hlib"
 )
 
@@ -34,6 +37,10 @@ type Conn struct {
 	closed chan struct{}
 	once   sync.Once
 	rerr   error
+	rd     io.Reader    // current read side (raw, TLS, snappy or deflate)
+	flush  func() error // extra flush of the compression layer
+	started bool
+	Neg    map[string]interface{} // negotiated features from the IDENTIFY response
 }
 
 const barrierID = "ffffffffffffffff" // never issued by the generator (ids start with the timestamp)
@@ -43,16 +50,40 @@ func dial(addr, name string) (*Conn, error) {
 	if err != nil {
 		return nil, err
 	}
-	cn := &Conn{Name: name, c: c, w: bufio.NewWriter(c), frames: make(chan Frame, 4096), closed: make(chan struct{})}
+	cn := &Conn{Name: name, c: c, w: bufio.NewWriter(c), frames: make(chan Frame, 4096), closed: make(chan struct{}), rd: c}
 	if _, err := c.Write([]byte("  V2")); err != nil {
 		return nil, err
 	}
-	go cn.readLoop()
 	return cn, nil
 }
 
+// start begins the frame reader; called once the (optional) feature negotiation is over
+func (cn *Conn) start() {
+	if !cn.started {
+		cn.started = true
+		go cn.readLoop()
+	}
+}
+
+// readRawFrame reads one frame synchronously (used only during IDENTIFY negotiation)
+func readRawFrame(r io.Reader) (int32, []byte, error) {
+	var hdr [8]byte
+	if _, err := io.ReadFull(r, hdr[:]); err != nil {
+		return 0, nil, err
+	}
+	size := int32(binary.BigEndian.Uint32(hdr[:4]))
+	if size < 4 || size > 64<<20 {
+		return 0, nil, fmt.Errorf("bad frame size %d", size)
+	}
+	data := make([]byte, size-4)
+	if _, err := io.ReadFull(r, data); err != nil {
+		return 0, nil, err
+	}
+	return int32(binary.BigEndian.Uint32(hdr[4:])), data, nil
+}
+
 func (cn *Conn) readLoop() {
-	r := bufio.NewReaderSize(cn.c, 64*1024)
+	r := bufio.NewReaderSize(cn.rd, 64*1024)
 	for {
 		var hdr [8]byte
 		if _, err := io.ReadFull(r, hdr[:]); err != nil {
@@ -103,7 +134,13 @@ func (cn *Conn) send(line string, body []byte) error {
 			return err
 		}
 	}
-	return cn.w.Flush()
+	if err := cn.w.Flush(); err != nil {
+		return err
+	}
+	if cn.flush != nil {
+		return cn.flush()
+	}
+	return nil
 }
 
 func lenPrefixed(b []byte) []byte {
@@ -169,15 +206,64 @@ func (cn *Conn) identify(extra map[string]interface{}) (map[string]interface{}, 
 	if err := cn.send("IDENTIFY\n", lenPrefixed(b)); err != nil {
 		return nil, err
 	}
-	f, _, err := cn.expectResponse(20 * time.Second)
+	cn.c.SetReadDeadline(time.Now().Add(20 * time.Second))
+	ft, data, err := readRawFrame(cn.rd)
 	if err != nil {
 		return nil, err
 	}
-	if f.Type != 0 {
-		return nil, fmt.Errorf("IDENTIFY: %s", f.Data)
+	if ft != 0 {
+		cn.start()
+		return nil, fmt.Errorf("IDENTIFY: %s", data)
 	}
 	var resp map[string]interface{}
-	json.Unmarshal(f.Data, &resp)
+	json.Unmarshal(data, &resp)
+	cn.Neg = resp
+	expectOK := func() error {
+		ft, data, err := readRawFrame(cn.rd)
+		if err != nil {
+			return err
+		}
+		if ft != 0 || string(data) != "OK" {
+			return fmt.Errorf("upgrade: unexpected frame %d %q", ft, data)
+		}
+		return nil
+	}
+	var under io.ReadWriter = cn.c
+	if v, _ := resp["tls_v1"].(bool); v {
+		tc := tls.Client(cn.c, &tls.Config{InsecureSkipVerify: true})
+		if err := tc.Handshake(); err != nil {
+			return nil, err
+		}
+		under = tc
+		cn.rd = tc
+		cn.w = bufio.NewWriter(tc)
+		if err := expectOK(); err != nil {
+			return nil, err
+		}
+	}
+	if v, _ := resp["snappy"].(bool); v {
+		cn.rd = snappy.NewReader(under)
+		//lint:ignore SA1019 unbuffered snappy writer, as nsqd itself uses
+		cn.w = bufio.NewWriter(snappy.NewWriter(under))
+		if err := expectOK(); err != nil {
+			return nil, err
+		}
+	}
+	if v, _ := resp["deflate"].(bool); v {
+		lvl := 6
+		if l, ok := resp["deflate_level"].(float64); ok {
+			lvl = int(l)
+		}
+		cn.rd = flate.NewReader(under)
+		fw, _ := flate.NewWriter(under, lvl)
+		cn.w = bufio.NewWriter(fw)
+		cn.flush = fw.Flush
+		if err := expectOK(); err != nil {
+			return nil, err
+		}
+	}
+	cn.c.SetReadDeadline(time.Time{})
+	cn.start()
 	return resp, nil
 }
 
